@@ -26,7 +26,7 @@ RULE = ("cases = C01/C02-style queries drawn by Hypothesis over datasets whose a
         "Python reference and with the result of the truthy-twin query (same indices must be selected). Non-trivial = a "
         "falsy value is the value of a value-position operand on some assignment (or a falsy constant operand) and the "
         "expected result is non-empty; distinct = distinct canonical JSON.")
-BUDGET = {"quick": (4, 450), "thorough": (16, 5000)}
+BUDGET = {"quick": (8, 600), "thorough": (16, 5000)}
 ASSUMPTIONS = ["substring / startswith tests are not generated here (no relabelling of '' preserves them); they are "
                "covered with falsy data by C01's reference oracle"]
 
